@@ -45,7 +45,7 @@ fn main() {
         let mut crng = rng.fork();
         let n = crng.below(5) as usize; // 0..4 transactions (empty block included)
         let inv = crng.chance(1, 3);
-        let (world, block) = gen_block(&mut crng, n, GenOpts { invalid: inv, destroy: false, create: false, beneficiary_roles: true, shared_callers: true, chain: false, cb: false, multi: false, empty_ben: false, auth: false });
+        let (world, block) = gen_block(&mut crng, n, GenOpts { invalid: inv, destroy: false, create: false, beneficiary_roles: true, shared_callers: true, chain: false, cb: false, multi: false, empty_ben: false, auth: false, maxn: false });
         let orc = oracle(&world.db, &block);
         let callers = crng.range(2, 4) as usize;
         let driven = crng.chance(2, 3);
